@@ -1,9 +1,253 @@
 import Driver.Util
-open Lean Replicat
+import ReplicatModel.Sched
+open Lean Replicat Replicat.Sched
 namespace Driver.HSched
-/-- requests `sched.*` (see DESIGN.md Appendix A) -/
+/-! requests `sched.*` (DESIGN.md Appendix A): `sched.flags`, `sched.accepts` for the four systems of ReplicatModel/Sched.lean.
+Events are JSON arrays `["name", arg…]`.  Reply: `{"ok":true, …final state…}` or `{"ok":false,"index":i,"why":…}` (first event that
+is not enabled). -/
+
+def evName (e : Json) : Except String (String × List Json) := do
+  let a ← e.getArr?
+  match a.toList with
+  | n :: rest => pure (← n.getStr?, rest)
+  | [] => throw "empty event"
+
+def argNat (l : List Json) (i : Nat) : Except String Nat :=
+  match l[i]? with
+  | some v => v.getNat?
+  | none => throw s!"missing event argument {i}"
+
+def argBool (l : List Json) (i : Nat) : Except String Bool :=
+  match l[i]? with
+  | some v => v.getBool?
+  | none => throw s!"missing event argument {i}"
+
+def optBool (j : Json) (k : String) (dflt : Bool) : Bool :=
+  match j.getObjVal? k with
+  | .ok (.bool b) => b
+  | _ => dflt
+
+def notOk (i : Nat) (why : String) : Json :=
+  Json.mkObj [("ok", Json.bool false), ("index", jnat i), ("why", Json.str why)]
+
+/-! ### slots -/
+
+def parseSlotEv (e : Json) : Except String SlotEv := do
+  let (n, a) ← evName e
+  match n with
+  | "acquire" => pure (.acquire (← argNat a 0))
+  | "start" => pure (.start (← argNat a 0))
+  | "finish" => pure (.finish (← argNat a 0) (← argBool a 1))
+  | "release" => pure (.release (← argNat a 0))
+  | _ => throw s!"unknown slot event {n}"
+
+def runSlots (fin : Bool) : Slots → List SlotEv → Nat → Nat → Nat → Except Nat (Slots × Nat × Nat)
+  | σ, [], _, mx, mh => .ok (σ, mx, mh)
+  | σ, e :: es, i, mx, mh =>
+    match Slots.step fin σ e with
+    | some σ' => runSlots fin σ' es (i + 1) (Nat.max mx σ'.inflight) (Nat.max mh σ'.held.length)
+    | none => .error i
+
+def sortNat (l : List Nat) : List Nat := (l.toArray.qsort (· < ·)).toList
+
+def handleSlots (j : Json) : Except String Json := do
+  let n ← getNat j "n"
+  let evs ← (← getArr j "events").toList.mapM parseSlotEv
+  let fin := optBool j "releaseInFinally" Gen.slotReleaseInFinally
+  match runSlots fin (Slots.init n) evs 0 0 0 with
+  | .error i => pure (notOk i "slot event not enabled")
+  | .ok (σ, mx, mh) =>
+    pure (Json.mkObj [("ok", Json.bool true), ("free", natArr (sortNat σ.free)), ("held", natArr (sortNat σ.held)),
+      ("leaked", natArr (sortNat σ.leaked)), ("inflight", jnat σ.inflight), ("max_inflight", jnat mx), ("max_held", jnat mh)])
+
+/-! ### snapshot -/
+
+/-- event + the chunk the implementation reported for it (`take`, `finish`), checked against the model's queue / worker -/
+def parseSnapEv (e : Json) : Except String (SnapEv × Option Nat) := do
+  let (n, a) ← evName e
+  match n with
+  | "put" => pure (.put, (argNat a 0).toOption)
+  | "prodStop" => pure (.prodStop, none)
+  | "prodVisible" => pure (.prodVisible, none)
+  | "take" => pure (.take (← argNat a 0), (argNat a 1).toOption)
+  | "poll" => pure (.poll (← argNat a 0), none)
+  | "exit" => pure (.exit (← argNat a 0), none)
+  | "finish" => pure (.finish (← argNat a 0) (← argBool a 1), (argNat a 2).toOption)
+  | "raiseAbort" => pure (.raiseAbort, none)
+  | "upload" => pure (.upload, none)
+  | _ => throw s!"unknown snapshot event {n}"
+
+def chunkMatches (s : Snap) : SnapEv → Option Nat → Bool
+  | .put, some k => s.produced == k
+  | .take _, some k => s.queue.head? == some k
+  | .finish w _, some k => s.workers[w]? == some (.busy k)
+  | _, _ => true
+
+def runSnap : Snap → List (SnapEv × Option Nat) → Nat → Except (Nat × String) Snap
+  | s, [], _ => .ok s
+  | s, (e, k) :: es, i =>
+    if !chunkMatches s e k then .error (i, "chunk differs from the model's (FIFO queue / worker's chunk)") else
+    match Snap.step s e with
+    | some s' => runSnap s' es (i + 1)
+    | none => .error (i, "snapshot event not enabled")
+
+def wphaseJson : WPhase → Json
+  | .idle => Json.str "idle"
+  | .busy k => Json.arr #[Json.str "busy", jnat k]
+  | .exited => Json.str "exited"
+  | .failed => Json.str "failed"
+
+def handleSnap (j : Json) : Except String Json := do
+  let total ← getNat j "total"
+  let n ← getNat j "n"
+  let evs ← (← getArr j "events").toList.mapM parseSnapEv
+  match runSnap (Snap.init total n) evs 0 with
+  | .error (i, why) => pure (notOk i why)
+  | .ok s =>
+    pure (Json.mkObj [("ok", Json.bool true), ("processed", natArr s.processed.reverse), ("queue", natArr s.queue),
+      ("produced", jnat s.produced), ("prodDone", Json.bool s.prodDone), ("abort", Json.bool s.abort),
+      ("workers", Json.arr (s.workers.map wphaseJson).toArray), ("uploaded", Json.bool s.uploaded),
+      ("finished", Json.bool s.finished), ("lost", natArr s.lost), ("cap", jnat s.cap), ("measure", jnat s.measure)])
+
+/-! ### restore: writer locks -/
+
+def parseLockEv (e : Json) : Except String (LockEv × Option Nat) := do
+  let (n, a) ← evName e
+  match n with
+  | "gAcq" => pure (.gAcq (← argNat a 0), none)
+  | "look" => pure (.look (← argNat a 0), none)
+  | "commit" => pure (.commit (← argNat a 0), (argNat a 1).toOption)
+  | "gRel" => pure (.gRel (← argNat a 0), none)
+  | "fAcq" => pure (.fAcq (← argNat a 0), (argNat a 1).toOption)
+  | "write" => pure (.write (← argNat a 0), none)
+  | "fRel" => pure (.fRel (← argNat a 0), none)
+  | "unreg" => pure (.unreg (← argNat a 0), none)
+  | "extAcq" => pure (.extAcq (← argNat a 0), none)
+  | "extRel" => pure (.extRel (← argNat a 0), none)
+  | _ => throw s!"unknown lock event {n}"
+
+def lockEvJob : LockEv → Option Nat
+  | .gAcq j | .look j | .commit j | .gRel j | .fAcq j | .write j | .fRel j | .unreg j => some j
+  | _ => none
+
+/-- the lock object the implementation used (numbered in creation order) must be the model's -/
+def lockMatches (σ' : Locks) : LockEv → Option Nat → Bool
+  | .commit j, some l => σ'.lk j == some l
+  | .fAcq j, some l => σ'.lk j == some l
+  | _, _ => true
+
+def critPerFile (fileOf : Nat → Nat) (σ : Locks) (jobs : Nat) : Nat :=
+  let fs := (List.range jobs).filter (fun j => inCrit (σ.pc j))
+  (fs.map (fun j => (fs.filter (fun j' => fileOf j' == fileOf j)).length)).foldl Nat.max 0
+
+def runLocks (atZero : Bool) (fileOf : Nat → Nat) (jobs : Nat) : Locks → List (LockEv × Option Nat) → Nat → Nat → Except (Nat × String) (Locks × Nat)
+  | σ, [], _, mx => .ok (σ, mx)
+  | σ, (e, l) :: es, i, mx =>
+    match Locks.step atZero fileOf σ e with
+    | some σ' =>
+      if !lockMatches σ' e l then .error (i, "lock object differs from the model's") else
+      runLocks atZero fileOf jobs σ' es (i + 1) (Nat.max mx (critPerFile fileOf σ' jobs))
+    | none => .error (i, "lock event not enabled")
+
+def handleLocks (j : Json) : Except String Json := do
+  let files ← getNatList j "files"
+  let evs ← (← getArr j "events").toList.mapM parseLockEv
+  let atZero := optBool j "delAtZero" Gen.flockDelAtZero
+  let fileOf : Nat → Nat := fun k => files.getD k 0
+  match runLocks atZero fileOf files.length Locks.init evs 0 0 with
+  | .error (i, why) => pure (notOk i why)
+  | .ok (σ, mx) =>
+    let allFiles := sortNat files.eraseDups
+    pure (Json.mkObj [("ok", Json.bool true), ("err", Json.bool σ.err), ("pcs", natArr ((List.range files.length).map σ.pc)),
+      ("glock_free", Json.bool σ.glock.isNone), ("max_writers_per_file", jnat mx),
+      ("table", Json.arr (allFiles.map (fun f => Json.arr #[jnat f, match σ.flocks f with | some l => jnat l | none => Json.null, jnat (σ.refc f)])).toArray),
+      ("locks_created", jnat σ.next)])
+
+/-! ### restore: loaders / finaliser -/
+
+def parseFinEv (e : Json) : Except String FinEv := do
+  let (n, a) ← evName e
+  match n with
+  | "downloaded" => pure (.downloaded (← argNat a 0))
+  | "write" => pure (.write (← argNat a 0) (← argNat a 1))
+  | "joined" => pure (.joined (← argNat a 0))
+  | "remove" => pure (.remove (← argNat a 0) (← argNat a 1))
+  | "test" => pure (.test (← argNat a 0) (← argNat a 1))
+  | "pop" => pure (.pop (← argNat a 0) (← argNat a 1))
+  | "finish" => pure (.finish (← argNat a 0))
+  | _ => throw s!"unknown finaliser event {n}"
+
+def lphaseJson : LPhase → Json
+  | .dl => Json.str "dl"
+  | .writing t => Json.arr #[Json.str "writing", natArr t]
+  | .fin t => Json.arr #[Json.str "fin", natArr t]
+  | .removed f t => Json.arr #[Json.str "removed", jnat f, natArr t]
+  | .popping f t => Json.arr #[Json.str "popping", jnat f, natArr t]
+  | .done => Json.str "done"
+  | .failed => Json.str "failed"
+
+def handleFin (j : Json) : Except String Json := do
+  let ls ← (← getArr j "loaders").toList.mapM fun x => do
+    pure (⟨← getNat x "d", ← getNatList x "refs", ← getNatList x "paths"⟩ : Loader)
+  let evs ← (← getArr j "events").toList.mapM parseFinEv
+  let under := optBool j "underLock" (Gen.finaliseDecidedUnderLock && Gen.decisionInsideRemoveBlock)
+  let wf : Bool := decide (LoadersWF ls)
+  match accepts (Fin.step under ls) (Fin.init ls) evs 0 with
+  | .error i => pure (notOk i "finaliser event not enabled")
+  | .ok σ =>
+    let files := sortNat (ls.flatMap (·.paths)).eraseDups
+    pure (Json.mkObj [("ok", Json.bool true), ("wf", Json.bool wf), ("underLock", Json.bool under),
+      ("phases", Json.arr (ls.map (fun l => Json.arr #[jnat l.d, lphaseJson (σ.phase l.d)])).toArray),
+      ("files", Json.arr (files.map (fun f => Json.arr #[jnat f, jnat (σ.finCount f), Json.bool (σ.hasMeta f), natArr (sortNat (σ.pending f))])).toArray)])
+
+/-! ### loop life -/
+
+def parseLifeEv (e : Json) : Except String LifeEv := do
+  let (n, a) ← evName e
+  match n with
+  | "begin" => pure .begin
+  | "grant" => pure .grant
+  | "finish" => pure (.finish (← argBool a 0))
+  | "dropQueued" => pure .dropQueued
+  | "ret" => pure .ret
+  | "cancelWaiter" => pure .cancelWaiter
+  | "close" => pure .close
+  | _ => throw s!"unknown life event {n}"
+
+def handleLife (j : Json) : Except String Json := do
+  let n ← getNat j "n"
+  let jobs ← getNat j "jobs"
+  let evs ← (← getArr j "events").toList.mapM parseLifeEv
+  let joins := optBool j "joins" Gen.restoreJoinsLoadersOnFailure
+  match accepts (Life.step joins) (Life.init n jobs) evs 0 with
+  | .error i => pure (Json.mkObj [("ok", Json.bool false), ("index", jnat i), ("why", Json.str "life event not enabled"), ("joins", Json.bool joins)])
+  | .ok σ =>
+    pure (Json.mkObj [("ok", Json.bool true), ("joins", Json.bool joins), ("free", jnat σ.free), ("held", jnat σ.held), ("waiting", jnat σ.waiting),
+      ("queued", jnat σ.queued), ("failed", Json.bool σ.failed), ("returned", Json.bool σ.returned), ("closed", Json.bool σ.closed),
+      ("lost", jnat σ.lost), ("stuck", Json.bool (σ.closed && decide (0 < σ.waiting)))])
+
 def handleSched (op : String) (j : Json) : Except String Json := do
   match op with
+  | "sched.flags" =>
+    pure (Json.mkObj [("slotBase", jnat Gen.slotBase), ("slotCountIsConcurrent", Json.bool Gen.slotCountIsConcurrent),
+      ("slotReleaseInFinally", Json.bool Gen.slotReleaseInFinally), ("transfersUnderSlot", Json.bool Gen.transfersUnderSlot),
+      ("workerContinues", Json.arr #[Json.bool (Gen.workerContinues false false), Json.bool (Gen.workerContinues false true),
+        Json.bool (Gen.workerContinues true false), Json.bool (Gen.workerContinues true true)]),
+      ("abortOnWorkerFailure", Json.bool Gen.abortOnWorkerFailure), ("producerStopsOnAbort", Json.bool Gen.producerStopsOnAbort),
+      ("flockShapeRecognised", Json.bool Gen.flockShapeRecognised), ("flockDelAtZero", Json.bool Gen.flockDelAtZero),
+      ("loaderJoinsWritersFirst", Json.bool Gen.loaderJoinsWritersFirst), ("removeUnderGlock", Json.bool Gen.removeUnderGlock),
+      ("popUnderGlock", Json.bool Gen.popUnderGlock), ("finaliseDecidedUnderLock", Json.bool Gen.finaliseDecidedUnderLock),
+      ("decisionInsideRemoveBlock", Json.bool Gen.decisionInsideRemoveBlock),
+      ("restoreJoinsLoadersOnFailure", Json.bool Gen.restoreJoinsLoadersOnFailure),
+      ("queueFactor", jnat Gen.queueFactor), ("loaderFactor", jnat Gen.loaderFactor)])
+  | "sched.accepts" =>
+    match ← getStr j "system" with
+    | "slots" => handleSlots j
+    | "snapshot" => handleSnap j
+    | "locks" => handleLocks j
+    | "fin" => handleFin j
+    | "life" => handleLife j
+    | s => throw s!"unknown system {s}"
   | _ => throw s!"unknown op {op}"
 
 end Driver.HSched
